@@ -103,6 +103,14 @@ func (q QSpec) Msg() *dns.Msg {
 		if len(m.Extra) < 2 {
 			m.Extra = append(m.Extra, dns.Copy(extraA))
 		}
+	case "2opt":
+		// two OPT pseudo-records (malformed): the first carries the client's options
+		if q.Opt < 0 {
+			panic("2opt shape needs Opt>=0")
+		}
+		o2 := &dns.OPT{Hdr: dns.RR_Header{Name: ".", Rrtype: dns.TypeOPT}}
+		o2.SetUDPSize(1232)
+		m.Extra = append(m.Extra, o2)
 	case "extraA":
 		if q.Opt >= 0 {
 			panic("extraA shape needs Opt<0")
